@@ -117,10 +117,10 @@ T = {
               "a body with 32-bit shuttle::rand draws, an execution ending after an odd number of them, and a later execution on the same OS thread: it is served the left-over half word "
               "without a recorded draw; its schedule does not replay and the nondeterminism checker rejects a controlled body",
               "cargo test --offline -p shuttle --test seed_demo"),
-    "C09-b": ("C09", "C09.R2|stops-when-exhausted", "before",
+    "C09-b": ("C09", "C09.R2|stops-when-exhausted", "after",
               "DFS with MaxSteps::ContinueAfter(0): no decision is ever recorded, `levels` stays empty, the exhaustion test never fires — the single empty schedule is repeated forever / max_iterations times",
               "cargo test --offline -p shuttle --test seed_demo"),
-    "C10-b": ("C10", "C10.R1", "before",
+    "C10-b": ("C10", "C10.R1", "after",
               "URW scheduler, a body with three generations of tasks, two scheduler instances built from the same seed: the parent/child edges are folded in HashMap order, weights differ, executions diverge from iteration 2",
               "cargo test --offline -p shuttle --test seed_demo"),
     "C11-b": ("C11", "C11.R2|new-task-can-be-lowest", "after",
@@ -140,7 +140,7 @@ T = {
 
 def main():
     res = {}
-    for name in ("seeded-results.json", "seeded-results-b.json"):
+    for name in ("seeded-results.json", "seeded-results-b.json", "seeded-results-b2.json", "seeded-results-c.json", "seeded-results-d.json"):
         p = os.path.join(HERE, "selftest", name)
         if os.path.exists(p):
             res.update({r["id"]: r for r in json.load(open(p))["results"]})
